@@ -1460,7 +1460,7 @@ INFO = {
 }
 for _v in INFO.values():
     _v['rule'] += (
-        '; swarm dimensions (see probes): layered maps, displaced objects re-inserted, handles that compare equal or are unhashable, handle-valued / self-valued resources, loads that reach or clear other handles, handles overriding __call__, values only the handle keeps alive, Ellipsis / NotImplemented values, world-file handles whose file is rewritten, handles under two names (C12), map subclasses needing constructor arguments, keys of 1200+ components, dunder-like and normalisation-sensitive names, snapshots attempted on K3-shaped trees, closed streams as resources, handles with map-like attributes, a root with its own split_char, defaults that are maps on the path, sub-maps borrowed by another map, handles under several names next to map classes with value equality (C11), program finalizers on resources only the handle keeps, handle layers taken off again, loads that replace a map on the way to their own handle')
+        '; swarm dimensions (see probes): layered maps, displaced objects re-inserted, handles that compare equal or are unhashable, handle-valued / self-valued resources, loads that reach or clear other handles, handles overriding __call__, values only the handle keeps alive, Ellipsis / NotImplemented values, world-file handles whose file is rewritten, handles under two names (C12), map subclasses needing constructor arguments, keys of 1200+ components, dunder-like and normalisation-sensitive names, snapshots attempted on K3-shaped trees, closed streams as resources, handles with map-like attributes, a root with its own split_char, defaults that are maps on the path, sub-maps borrowed by another map, handles under several names next to map classes with value equality (C11), program finalizers on resources only the handle keeps, handle layers taken off again, loads that replace a map on the way to their own handle, NUL in names')
 PROBES = {
     'C11': ['implicit_intermediate_created', 'handle_replaced_by_map',
             'map_replaced_by_handle', 'layered_name_reassigned',
